@@ -110,7 +110,8 @@ pub(crate) fn load_private_key(wallet_address: &str) -> Result<String, Error> {
 }
 
 pub(crate) fn load_wallet_from_address(wallet_address: &str) -> Result<Wallet, Error> {
-    let network = get_evm_network_from_env().expect("Could not load EVM network from environment");
+    let network = get_evm_network_from_env()
+        .map_err(|err| Error::FailedToLoadEvmNetwork(err.to_string()))?;
     let private_key = load_private_key(wallet_address)?;
     let wallet = Wallet::new_from_private_key(network, &private_key)
         .map_err(|_| Error::InvalidPrivateKey)?;
